@@ -528,7 +528,7 @@ Proof.
     + apply blockD_sub in H1. apply blockD_sub in H2. apply (NoDup_app_disj _ _ _ x N1); [tauto|apply IN'; tauto].
     + apply blockD_sub in H1. subst x. apply (FR b' (or_intror Hb') NT2). apply in_or_app. left. tauto.
     + apply blockD_sub in H2. subst x. apply (FR b (or_introl eq_refl) NT1). apply in_or_app. right. apply IN'. tauto.
-    + rewrite NT1 in N2. simpl in N2. inversion N2 as [|? ? Hnot Hrest]; subst. apply Hnot. rewrite <- E1, E2.
+    + rewrite NT1 in N2. simpl in N2. inversion N2 as [|? ? Hnot Hrest]. apply Hnot. rewrite <- E1, E2.
       apply in_map. apply filter_In. auto.
 Qed.
 
@@ -571,6 +571,16 @@ Proof.
       apply Ga. apply Nat.leb_le. exact NT. }
   constructor; auto.
   apply NoDup_Permutation; auto. intros x. split; auto.
+Qed.
+
+Theorem break_cycles_shape : forall tc use_memo P labeled evidence D ks1 ks2,
+    wf_src P -> break_cycles_m tc use_memo (wp_graph P) (ai_of P) labeled evidence = Some (D, ks1, ks2) ->
+    dag_ok P D.
+Proof.
+  intros tc um P labeled evidence D ks1 ks2 WF BC.
+  destruct (break_cycles_inv P (wf_ids P WF) (wf_extras P WF) (wf_fresh P WF) (wp_graph P) (wf_atoms P WF) tc um labeled evidence D ks1 ks2 BC)
+    as [t [ED IT]].
+  subst D. apply Inv_dag_ok; auto.
 Qed.
 
 (* ------------------------------------------------------------------ the full composition *)
